@@ -37,7 +37,7 @@ func TestMain(m *testing.M) {
 	run = vk.Start("C09", "exploration")
 	const run0Rule = "per (entry point, protocol state) an input stream indexed by i: first the small-scope systematic mutants of every well-formed sample built with the repo's own serialisers (truncation at every byte; every interesting 8/16-bit value in each of the first 12 bytes), then seeded mutants (bit flips, length-field tampering, truncation, duplication, splicing, random bytes; 0..2048 bytes); stateful handlers get samples that follow their current state (live session ids, last identifier, valid authenticator). non-trivial = distinct input that got past the entry point's framing (call returned nil / produced a reply or a state change / parser returned a non-empty result)"
 	run.Assume("wall-clock is used only by the 10 s per-input hang watchdog (a firing is a candidate, confirmed only if it reproduces in a fresh process) and by the scaling probe, which reads the process CPU clock instead (min of 9 repetitions at n,2n,4n bytes with the collector off; flagged only if both doublings cost >= 6x and the largest run takes >= 200us of CPU, and only if a second probe in a fresh process flags it again)")
-	run.Rule(run0Rule + " || second pass (TestStatefulHammer, entries gated:*): per (gated handler, state) the real object is driven into the state by the legitimate sequence of calls/packets, the identifiers it then expects (Configure-Request identifier and options, CHAP Challenge identifier, session id and station address, offered address and server identifier, leased IPv6 address / prefix and server DUID) are read from the packets it emitted, and it gets input i of a stream: first the shuffled small-scope list of structure-aware hostile packets that carry those identifiers (every code; every option with every value length 0..len+2, every dishonest option length, repeated options, the option list cut at every byte, packet length field short/long/zero, up to the size bound; nested option lists one level deep), then seeded structural mutants (1-3 of: short/long/empty value, lying length, cut, repeat, max-size, drop, swap, unknown type, nested damage) and byte-level mutants of valid packets; 15% of the seeded packets get a neighbouring/random identifier. After each input a legitimate exchange is delivered to the same object (must not panic or hang). gate-passed = the handler emitted a packet, changed state / lease / session table, or returned an error from beyond the framing check; gate-rejected = no observable effect; framing-rejected = refused by the length/header check (or the wire parser) in front of the handler. non-trivial = distinct gate-passed input || third pass (entries exhausted:*, same test): per (stateful handler, exhausted / unusual server state) every case builds a fresh server whose pool or table is completely in use by the legitimate exchanges of a handful of clients (DHCPv6 legacy /126 address + /62 prefix pool, address pool only, integrated allocator /127 + /62, allocation store that refuses writes; DHCPv4 /29 pool with a two-block NAT range: every address leased / only offered / declined / lapsed-unswept; PPPoE /30 client pool, session id counter about to wrap, all 65 535 session ids taken (one short chunk in the quick tier); RADIUS CoA back ends failing / no session table / no handlers; HA standby whose store refuses writes / holds 1000 stale sessions), the lapsed-unswept states by the smallest configurable lifetimes (1 s, 40 ms) and a real wait, optionally with one client renewed so that only some leases have lapsed (the sub-state met at delivery is read from the lease table and counted), and delivers input i of a stream: first the matrix of every well-formed client message type x client role (holds a binding / holds a prefix only / relayed / newcomer) x reference (own, another client's, no address; Rapid-Commit; with and without relay agent), then a prefix of the shuffled systematic hostile list of the second pass and its seeded mutants, resolved for one of the roles (explicit placeholder or a hash of the input, so that a witness fed alone meets the same client); then a legitimate follow-up on the same server (newcomer asks, holder renews, holder releases, newcomer asks again, sweep). Counters exh_<protocol>/<state>/<event> say which exhaustion paths were observed from the replies (NoAddrsAvail, NoPrefixAvail, address granted to a client that held none = reclaim on exhaustion, DISCOVER unanswered, authenticated without address, session id found behind the wrap, NAK from failing back ends ...)")
+	run.Rule(run0Rule + " || second pass (TestStatefulHammer, entries gated:*): per (gated handler, state) the real object is driven into the state by the legitimate sequence of calls/packets, the identifiers it then expects (Configure-Request identifier and options, CHAP Challenge identifier, session id and station address, offered address and server identifier, leased IPv6 address / prefix and server DUID) are read from the packets it emitted, and it gets input i of a stream: first the shuffled small-scope list of structure-aware hostile packets that carry those identifiers (every code; every option with every value length 0..len+2, every dishonest option length, repeated options, the option list cut at every byte, packet length field short/long/zero, up to the size bound; nested option lists one level deep), then seeded structural mutants (1-3 of: short/long/empty value, lying length, cut, repeat, max-size, drop, swap, unknown type, nested damage) and byte-level mutants of valid packets; 15% of the seeded packets get a neighbouring/random identifier. After each input a legitimate exchange is delivered to the same object (must not panic or hang). gate-passed = the handler emitted a packet, changed state / lease / session table, or returned an error from beyond the framing check; gate-rejected = no observable effect; framing-rejected = refused by the length/header check (or the wire parser) in front of the handler. non-trivial = distinct gate-passed input || third pass (entries exhausted:*, same test): per (stateful handler, exhausted / unusual server state) every case builds a fresh server whose pool or table is completely in use by the legitimate exchanges of a handful of clients (DHCPv6 legacy /126 address + /62 prefix pool, address pool only, integrated allocator /127 + /62, allocation store that refuses writes; DHCPv4 /29 pool with a two-block NAT range: every address leased / only offered / declined / lapsed-unswept; PPPoE /30 client pool, session id counter about to wrap, all 65 535 session ids taken (one short chunk in the quick tier); RADIUS CoA back ends failing / no session table / no handlers; HA standby whose store refuses writes / holds 1000 stale sessions), the lapsed-unswept states by the smallest configurable lifetimes (1 s, 40 ms) and a real wait, optionally with one client renewed so that only some leases have lapsed (the sub-state met at delivery is read from the lease table and counted), and delivers input i of a stream: first the matrix of every well-formed client message type x client role (holds a binding / holds a prefix only / relayed / newcomer) x reference (own, another client's, no address; Rapid-Commit; with and without relay agent), then a prefix of the shuffled systematic hostile list of the second pass and its seeded mutants, resolved for one of the roles (explicit placeholder or a hash of the input, so that a witness fed alone meets the same client); then a legitimate follow-up on the same server (newcomer asks, holder renews, holder releases, newcomer asks again, sweep). Counters exh_<protocol>/<state>/<event> say which exhaustion paths were observed from the replies (NoAddrsAvail, NoPrefixAvail, address granted to a client that held none = reclaim on exhaustion, DISCOVER unanswered, authenticated without address, session id found behind the wrap, NAK from failing back ends ...) || fourth pass (entries reply:*, same test; c09_replies_test.go): response construction. Per (handler that builds a reply whose size depends on the request, state) a systematic list, identical for every seed and tier, of authentic well-formed requests whose variable-length field takes EVERY length of its range: RADIUS CoA-/Disconnect-Request (valid authenticator) to the real CoAProcessor naming unknown sessions with Acct-Session-Id / Calling-Station-Id / User-Name / Filter-Id of 0..253 octets in 14 attribute contexts, and to handlers returning texts of every length 0..300 x ACK/NAK x with/without Error-Cause; LCP automaton in each of the ten states, IPCP/IPv6CP in the six they can meet a packet in: Echo-Request, unknown code (Code-Reject), Terminate-Request with every data length 0..1500 where a request is outstanding/answered or the layer is opened and 0..260 + 1480..1500 elsewhere, Configure-Request with unknown / nak-able options of 0..253 octets alone and behind 5 x 253 octets; PPPoE server through its real receive loop: PADI/PADR with Host-Uniq, Relay-Session-Id, Service-Name of 0..2010 octets (AC-Cookie, Vendor-Specific: 0..300, 1400..1500, 1990..2010), session frames (Echo-Request, unknown code, unknown protocol = Protocol-Reject, Configure-Request with unknown options) of 0..1500 octets to sessions in each phase; DHCPv4 DISCOVER/REQUEST/INFORM with options 61,60,81,12 and Option 82 (circuit-id, remote-id, raw) of 0..255 octets, bound and relayed; DHCPv6 Solicit(+Rapid Commit)/Request/Renew/Information-Request with Client-Id, Vendor Class, FQDN, ORO, Interface-Id, Remote-Id of 0..300 octets and Client-Id up to 1900. non-trivial = distinct request that was answered (or had an observable effect); counters reply_*/... record what the replies looked like (text length classes 253/254/255/256, longest reply, replies beyond MRU/MTU, Reply-Message length octet that no longer matches its text): evidence, not judged")
 	run.Assume("a panic is attributed to bng when the innermost non-runtime, non-stdlib, non-third-party frame of its stack is a bng function; panics raised inside the harness or inside third-party parsers called by the harness are reported as observations, not violations")
 	code := m.Run()
 	ec := run.Finish()
